@@ -27,7 +27,7 @@
 //	k.Requests() []SimRequest      copy of the log: every request received, in order of arrival
 //	k.Take() []SimRequest          same, and clears the log
 //	    SimRequest{Conn "main"|"ps"|"rt", NlType, Flags (nlmsg flags), Seq, Cmd, Version (genl header),
-//	               Attrs []SimAttr (parsed tree), Raw []byte (attribute bytes), Errno (what was answered),
+//	               Attrs []SimAttr (parsed tree), Raw []byte (attribute bytes; "raw" hex in JSON), Errno (what was answered),
 //	               OIDs []SimOID (the (seid,id) pairs named by the request)}
 //	    SimAttr{Type uint16 (flag bits masked off), Nested bool, Data []byte (leaf payload), Sub []SimAttr}
 //	    both marshal to JSON: {"t":7,"d":"0a000000"} / {"t":5,"n":true,"s":[...]}
@@ -326,6 +326,7 @@ type SimRequest struct {
 	Version uint8     `json:"version"`
 	Attrs   []SimAttr `json:"attrs"`
 	Raw     []byte    `json:"-"`
+	RawHex  string    `json:"raw"` // Raw, for JSON consumers
 	ParseOK bool      `json:"parse_ok"`
 	Errno   int       `json:"errno"`
 	OIDs    []SimOID  `json:"oids,omitempty"`
@@ -571,6 +572,7 @@ func (k *SimKernel) serveOne(c *simConn, m []byte) {
 	} else {
 		req.Raw = append([]byte{}, body...)
 	}
+	req.RawHex = hex.EncodeToString(req.Raw)
 	if req.ParseOK {
 		k.fillOIDs(req)
 	}
